@@ -76,7 +76,7 @@ def mk_scn(cid, config, scripts, ticks, extra=None):
 
 
 def cases(seed, tier):
-    n = 600 if tier == "quick" else 10000
+    n = 1000 if tier == "quick" else 10000
     rng = random.Random(seed * 1000003 + 2)
     for i in range(n):
         nrs = rng.choice([1, 1, 2, 2, 3])
